@@ -293,7 +293,7 @@ func exploreMode(t *testing.T, spec *Spec, res *WorkerResult) {
 	var history []uint64
 	start := time.Now()
 	for i := 0; i < maxRuns; i++ {
-		if time.Since(start) > budget {
+		if time.Since(start) > budget || Recycle {
 			break
 		}
 		runSeed := Mix(seed, uint64(worker)+1, uint64(i)+1)
